@@ -3,7 +3,8 @@
 usage: seedtest.py <dir with patch.diff, demo.pseudo, meta.json> [--checks C02,C05] [--noconfirm]"""
 import sys, os, json, subprocess, shutil, time
 VERIF = os.path.dirname(os.path.dirname(os.path.abspath(__file__)))
-WT = "/tmp/mut/wt-verify"
+SLOT = os.environ.get("SEEDTEST_SLOT", "")   # several seedtests may run side by side, one slot each
+WT = "/tmp/mut/wt-verify" + SLOT
 
 def sh(cmd, **kw):
     return subprocess.run(cmd, shell=True, capture_output=True, text=True, **kw)
@@ -44,7 +45,7 @@ def confirm(d):
     sh("git -C %s checkout -- ." % WT)
     return dict(builds=ok0 and ok1, ctest_ok=ctest_ok, demo_differs=(plain != patched), plain=repr(plain)[:600], patched=repr(patched)[:600])
 
-SEEDREPO = "/tmp/mut/seedrepo"
+SEEDREPO = "/tmp/mut/seedrepo" + SLOT
 
 def run_checks(d, pids, tier="quick"):
     """run the checks against a scratch export of /repo HEAD with the patch applied (VERIF_REPO); /repo itself is not touched,
